@@ -25,6 +25,11 @@ STMTS = {
 }
 
 
+# what may stand in front of the annotation line (after the previous statement's ';' or at the start of the file)
+PREFIXES = ["", "-- a comment about the query\n", "/* banner */\n", "/*\n * Authors\n */\n", "\n\n", "/* multi\n   line */\n-- and a line\n",
+            "-- name: First :exec\nDELETE FROM t WHERE n = $1;\n\n", "-- name: First :exec\nDELETE FROM t WHERE n = $1;\n/*\n * second part\n */\n\n"]
+
+
 def ann(syntax, name, cmd):
     if syntax == "--":
         return "-- name: %s %s" % (name, cmd)
@@ -91,14 +96,14 @@ def run(tier, seed):
                 rep.violation("correspondence corr:C11:meta_parse broken: model and metadata.Parse differ on %r" % t[:60], {"text": t, "syntax": [d, h, s], "impl": r}, no_input=True)
 
     # --- B. the cross product command x statement x syntax x prepared x interface through sqlc generate
-    combos = list(itertools.product(CMDS, STMTS, ("--", "/*"), (False, True), (False, True)))
+    combos = list(itertools.product(CMDS, STMTS, ("--", "/*"), (False, True), (False, True), range(len(PREFIXES))))
     if tier == "quick":
         rng.shuffle(combos)
-        combos = combos[:160]
+        combos = combos[:240]
     jobs = []
-    for cmd, sk, syntax, prepared, iface in combos:
+    for cmd, sk, syntax, prepared, iface, pf in combos:
         sql, _, _ = STMTS[sk]
-        q = "%s\n%s;\n\nSELECT 1;\n" % (ann(syntax, "TheQuery", cmd), sql)      # the second statement has no annotation
+        q = "%s%s\n%s;\n\nSELECT 1;\n" % (PREFIXES[pf], ann(syntax, "TheQuery", cmd), sql)      # the last statement has no annotation
         cfg = json.dumps({"version": "1", "packages": [{"path": "db", "engine": "postgresql", "schema": "schema.sql", "queries": "query.sql",
                                                         "emit_prepared_queries": prepared, "emit_interface": iface}]})
         jobs.append({"op": "generate", "summary": True, "nofiles": True, "files": {"sqlc.json": cfg, "schema.sql": SCHEMA, "query.sql": q}})
@@ -119,12 +124,15 @@ def run(tier, seed):
     if dupres2.get("ok") or "duplicate query name" not in dupres2.get("stderr", ""):
         rep.violation("the same query name in two query files of one package is not rejected", {"impl": dupres2})
     exprs, keys = [], []
-    for (cmd, sk, syntax, prepared, iface), r in zip(combos, res):
+    for (cmd, sk, syntax, prepared, iface, pf), r in zip(combos, res):
         sql, has_row, dml_noret = STMTS[sk]
-        rep.case(("gen", cmd, sk, syntax, prepared, iface), nontrivial=True,
+        expect_names = (["First"] if "First" in PREFIXES[pf] else []) + ["TheQuery"]
+        rep.count("prefix:%d" % pf)
+        rep.case(("gen", cmd, sk, syntax, prepared, iface, pf), nontrivial=True,
                  sample={"cmd": cmd, "stmt": sql, "prepared": prepared, "interface": iface, "ok": r.get("ok")} if len(rep.samples) < 6 else None)
         rep.count("cell:%s:%s" % (cmd, "accepted" if r.get("ok") else "rejected"))
-        replay = {"cmd": cmd, "stmt": sql, "syntax": syntax, "prepared": prepared, "interface": iface, "stderr": r.get("stderr"), "panic": r.get("panic")}
+        replay = {"cmd": cmd, "stmt": sql, "syntax": syntax, "prepared": prepared, "interface": iface, "stderr": r.get("stderr"), "panic": r.get("panic"),
+                  "text_before_annotation": PREFIXES[pf]}
         if "panic" in r:
             rep.violation("sqlc panics: " + r["panic"][:100], replay, klass="one_many_on_statement_without_result_panics" if not has_row else None)
             continue
@@ -142,15 +150,16 @@ def run(tier, seed):
         s = r["summary"]
         methods = [m for m in s.get("db/query.sql.go", {}).get("methods", []) if m["recv"] == "Queries"]
         names = [m["name"] for m in methods]
-        if names != ["TheQuery"]:
-            rep.violation("the method set %s is not exactly the annotated name (the unannotated statement must contribute nothing)" % names, replay)
+        if sorted(names) != sorted(expect_names):
+            rep.violation("the method set %s is not exactly the annotated names %s (every annotated statement one method, the unannotated statement nothing)" % (names, expect_names), replay)
             continue
-        m = methods[0]
+        m = [m for m in methods if m["name"] == "TheQuery"][0]
         if iface:
             qi = [i for i in s.get("db/querier.go", {}).get("interfaces", []) if i["name"] == "Querier"]
             sig = lambda ps: [p["type"] for p in ps]
-            if not qi or [x["name"] for x in qi[0]["methods"]] != ["TheQuery"] or sig(qi[0]["methods"][0]["params"]) != sig(m["params"]) \
-               or sig(qi[0]["methods"][0]["results"]) != sig(m["results"]):
+            qm = [x for x in qi[0]["methods"] if x["name"] == "TheQuery"] if qi else []
+            if not qi or sorted(x["name"] for x in qi[0]["methods"]) != sorted(expect_names) or sig(qm[0]["params"]) != sig(m["params"]) \
+               or sig(qm[0]["results"]) != sig(m["results"]):
                 rep.violation("the Querier interface does not list the method with the same signature", replay)
         exprs.append("judge_contract %s %s %s %s %s %d" % (coqstr(cmd), coqbool(prepared), coqlist([coqstr(x["type"]) for x in m["results"]]),
                                                         coqstr(m["call"].split(".")[-1]), coqlist([coqstr(e) for e in m["events"]]), m["scan_count"]))
@@ -163,6 +172,6 @@ def run(tier, seed):
     if getattr(rep, "proof_broken", None) and not rep.violations:
         rep.violation("proof obligation no longer checks: " + rep.proof_broken, {"theorem_file": "coq/theories/Props/C11.v", "detail": info}, no_input=True)
     return rep.finish("proof", ob, dis, checker_cmd(PROP),
-                      rule="(A) annotation lines: every command x comment syntax x name form plus malformed variants and random token strings, through metadata.Parse with three CommentSyntax settings, against the Gallina transcription; (B) the cross product 5 commands x 10 statement shapes (SELECT/INSERT/UPDATE/DELETE/TRUNCATE, with/without RETURNING, 0..3 parameters, 1..3 result columns) x 2 comment syntaxes x prepared x interface through sqlc generate (complete in thorough, a sample of 160 cells in quick), the emitted method's structure read back with go/parser and judged by Spec/Contract.v",
+                      rule="(A) annotation lines: every command x comment syntax x name form plus malformed variants and random token strings, through metadata.Parse with three CommentSyntax settings, against the Gallina transcription; (B) the cross product 5 commands x 10 statement shapes (SELECT/INSERT/UPDATE/DELETE/TRUNCATE, with/without RETURNING, 0..3 parameters, 1..3 result columns) x 2 comment syntaxes x prepared x interface x 8 texts in front of the annotation (comments, multi-line block comments, blank lines, a preceding annotated statement) through sqlc generate (complete in thorough, a sample of 240 cells in quick), the emitted method's structure read back with go/parser and judged by Spec/Contract.v",
                       assumptions=["the template half of the property is tied to the code by reading the emitted Go back (go/parser), not by a model of text/template",
                                    "query names are ASCII (unicode.IsLetter/IsDigit outside ASCII is not modelled)"])
